@@ -89,6 +89,38 @@ fn attr_lists(sc: &mut Scenario) -> Vec<&mut Vec<Nested>> {
 }
 
 pub fn minimise(prop: &str, sc: &Scenario, rule: &str, budget: usize) -> (Scenario, usize) {
+    minimise_with(sc, budget, &mut |c| fails_same(prop, c, rule))
+}
+
+/// Does a fresh child process die (signal) when it runs this scenario? For violations that kill the
+/// process (double panic = abort, stack exhaustion).
+pub fn dies_in_child(prop: &str, sc: &Scenario) -> bool {
+    use std::io::Write;
+    let exe = match std::env::current_exe() {
+        Ok(e) => e,
+        Err(_) => return false,
+    };
+    let mut child = match std::process::Command::new(exe)
+        .arg("check-stdin")
+        .arg(prop)
+        .stdin(std::process::Stdio::piped())
+        .stdout(std::process::Stdio::null())
+        .stderr(std::process::Stdio::null())
+        .spawn()
+    {
+        Ok(c) => c,
+        Err(_) => return false,
+    };
+    if let Some(mut stdin) = child.stdin.take() {
+        let _ = stdin.write_all(serde_json::to_string(sc).unwrap_or_default().as_bytes());
+    }
+    match child.wait() {
+        Ok(st) => st.code().is_none(),
+        Err(_) => false,
+    }
+}
+
+pub fn minimise_with(sc: &Scenario, budget: usize, still_fails: &mut dyn FnMut(&Scenario) -> bool) -> (Scenario, usize) {
     let mut cur = sc.clone();
     let mut steps = 0usize;
     let mut progress = true;
@@ -101,7 +133,7 @@ pub fn minimise(prop: &str, sc: &Scenario, rule: &str, budget: usize) -> (Scenar
             let mut c = cur.clone();
             c.env.faults.remove(k);
             steps += 1;
-            if fails_same(prop, &c, rule) {
+            if still_fails(&c) {
                 cur = c;
                 progress = true;
             }
@@ -121,7 +153,7 @@ pub fn minimise(prop: &str, sc: &Scenario, rule: &str, budget: usize) -> (Scenar
                 let mut c = cur.clone();
                 c.env.faults[k].1 = w;
                 steps += 1;
-                if fails_same(prop, &c, rule) {
+                if still_fails(&c) {
                     cur = c;
                     progress = true;
                     break;
@@ -150,7 +182,7 @@ pub fn minimise(prop: &str, sc: &Scenario, rule: &str, budget: usize) -> (Scenar
                     continue;
                 }
                 steps += 1;
-                if fails_same(prop, &c, rule) {
+                if still_fails(&c) {
                     cur = c;
                     progress = true;
                 }
@@ -161,7 +193,7 @@ pub fn minimise(prop: &str, sc: &Scenario, rule: &str, budget: usize) -> (Scenar
             let mut c = cur.clone();
             c.env.none_some.clear();
             steps += 1;
-            if fails_same(prop, &c, rule) {
+            if still_fails(&c) {
                 cur = c;
                 progress = true;
             }
@@ -172,7 +204,7 @@ pub fn minimise(prop: &str, sc: &Scenario, rule: &str, budget: usize) -> (Scenar
             // positions of remote-span selectors are stale after a layout change; such a candidate
             // only survives if the rule still fails without them
             steps += 1;
-            if fails_same(prop, &c, rule) {
+            if still_fails(&c) {
                 cur = c;
                 progress = true;
             }
